@@ -494,6 +494,8 @@ class SgioReplug(_DeviceUnit):
             # representation invariant after every step: an open current handle was opened on the recorded inode
             if not st["cur_closed"]:
                 yield "C15", p + "invariant:recorded-inode-is-the-open-handles", st["cur"].ino == st["rec"]
+        # a vanished node is an error: in particular the read-write open mode must not re-create the path as a file
+        yield "C15", "nothing-is-created-at-the-device-path", len(w.created) == 0
         cur = dev._file
         for h in w.handles:
             if h is not cur:
